@@ -204,7 +204,7 @@ func checkC11(c *Ctx) {
 	datas := []data.Map{
 		{"a": data.String("A<"), "c": data.Map{"x": data.String("CX<")}, "b": data.Int(7), "x": data.String("X&"), "x_1": data.String("X1"), "n": data.Int(1), "l": data.List{data.Int(1)}},
 		{"a": data.String("a"), "c": data.Map{"x": data.String("cx")}, "b": data.Int(0), "x": data.String("x"), "x_1": data.String("y"), "n": data.Int(3), "l": data.List{data.String("p"), data.String("q")}},
-		{"a": data.String("q&"), "c": data.Map{"x": data.String("'")}, "b": data.Int(-1), "x": data.String("'"), "x_1": data.String("\""), "n": data.Int(7), "l": data.List{}},
+		{"a": data.String("q&"), "c": data.Map{"x": data.String("'")}, "b": data.Int(-1), "x": data.String("'"), "x_1": data.String("\""), "n": data.Int(-1), "l": data.List{}},
 		{"a": data.String("0"), "c": data.Map{"x": data.String("0")}, "b": data.Int(2), "x": data.String("w"), "x_1": data.String("v"), "n": data.Int(0), "l": data.List{data.Int(1), data.Int(2), data.Int(3)}},
 	}
 	for _, d := range datas {
